@@ -146,6 +146,16 @@ _VALUE_CAST_TYPES = {"int", "long", "short", "char", "unsigned int", "unsigned l
                      "np.float32_t", "np.float64_t", "CodeType", "CodeType1", "CodeType2"}
 
 
+_OBJECT_CAST_TYPES = {"object", "list", "tuple", "dict", "set", "bytes", "str", "bytearray", "np.ndarray", "ndarray", "void"}
+
+
+def _reinterpreting_cast(ctype_txt):
+    """a cast that does not convert a value: to a pointer type or to a Python object type.  Everything else (C number types,
+    ctypedef'd names, fused types, `signed int`, `long int`, ...) may truncate, wrap or change sign and stays in the tree"""
+    t = " ".join(ctype_txt.split())
+    return t.endswith("*") or t in _OBJECT_CAST_TYPES or t.endswith("?")
+
+
 def _operand_end(sig, k, path):
     """index (in `sig`) of the last token of the unary operand that starts at sig[k]: prefixes, an atom, its trailers"""
     n = len(sig)
@@ -554,7 +564,7 @@ def lower(path, source=None):
                 raise LoweringError(f"{path}:{t.start[0]}: unterminated cast")
             ctype_txt = _text(sig[i + 1 : j])
             casts.append((t.start[0], ctype_txt))
-            if ctype_txt.strip() in _VALUE_CAST_TYPES:
+            if not _reinterpreting_cast(ctype_txt):
                 # a conversion between number types changes the value (truncation, wrap-around): it stays visible to the rules
                 # as __cast__("T", operand); pointer / object casts reinterpret and are dropped
                 end = _operand_end(sig, j + 1, path)
